@@ -49,6 +49,15 @@ Theorem C03_base_truthful : forall c i o so s s1, wf_case c = true -> summary_at
 Proof. exact base_truthful. Qed.
 Print Assumptions C03_base_truthful.
 
+(* the model gives more than the property asks: everything below an ACKNACK's base is even RECORDED
+   (the base is the reader's ack base: the lowest number it has neither received nor taken note of);
+   with C03_recorded_sub_declared this implies C03_base_truthful *)
+Theorem C03_base_recorded : forall c i o so s s1, wf_case c = true -> summary_at c i o so s s1 ->
+  forall w base n bits cnt, In (AckNack w base n bits cnt) (so_replies so) ->
+  forall m, m < base -> recorded s1 m = true.
+Proof. exact base_recorded. Qed.
+Print Assumptions C03_base_recorded.
+
 (* RECORDED is part of DECLARED, for every summary whatsoever ... *)
 Theorem C03_recorded_sub_declared : forall s m, recorded s m = true -> known s m = true.
 Proof. exact recorded_sub_known. Qed.
